@@ -35,6 +35,7 @@ def shards(tier, seed):
 	out = [dict(name=f'hist-{i}', kind='hist', sub=i, nhist=5 if tier == 'quick' else 12, maxlen=25 if tier == 'quick' else 60) for i in range(n)]
 	out.append(dict(name='strace', kind='strace', nhist=1 if tier == 'quick' else 6, steps=6 if tier == 'quick' else 10))
 	out.append(dict(name='testdb', kind='hist', sub=99, nhist=1, maxlen=20, testdb=True))
+	out.append(dict(name='damaged', kind='hist', sub=77, nhist=5 if tier == 'quick' else 15, maxlen=8, damaged=True))
 	return out
 
 
@@ -100,13 +101,14 @@ class SqlMonitor:
 # ---- steps ---------------------------------------------------------------------------------------------------
 
 class Hist:
-	def __init__(self, ctx, rng, tag, testdb=False, journal=None):
+	def __init__(self, ctx, rng, tag, testdb=False, journal=None, damage=None):
 		from vf import world as W
 		from vf.props import _cli
 		self.ctx, self.rng = ctx, rng
 		self.dir = ctx.workdir / tag
 		self.dir.mkdir()
 		self.testdb = testdb
+		self.damage = damage
 		if testdb:
 			src = __import__('vf.core', fromlist=['REPO']).REPO / 'tests' / 'data' / 'testdb_210818'
 			self.db = self.dir / 'db'
@@ -132,9 +134,29 @@ class Hist:
 		# make the files read-write for the user (a read-only mode bit would hide write attempts behind EACCES)
 		for p in self.db.iterdir():
 			os.chmod(p, 0o644)
+		# a genome file that is incomplete or is not gambit's at all: read-side commands fail on it - and still must not write to it
+		if damage:
+			import sqlite3
+			gdb = next(p for p in self.db.iterdir() if p.suffix in ('.gdb', '.db'))
+			if damage == 'table-dropped':
+				con = sqlite3.connect(str(gdb)); con.execute('PRAGMA foreign_keys=OFF'); con.execute(f'DROP TABLE {rng.choice(["taxa", "genome_annotations"])}'); con.commit(); con.close()
+			elif damage == 'index-dropped':
+				con = sqlite3.connect(str(gdb))
+				idx = [r[0] for r in con.execute("select name from sqlite_master where type='index' and sql is not null")]
+				if idx:
+					con.execute(f'DROP INDEX "{rng.choice(idx)}"')
+				con.commit(); con.close()
+			elif damage == 'zero-length':
+				gdb.write_bytes(b'')
+			elif damage == 'foreign-sqlite':
+				gdb.unlink()
+				con = sqlite3.connect(str(gdb)); con.execute('CREATE TABLE notes (id INTEGER PRIMARY KEY, body TEXT)'); con.execute("INSERT INTO notes (body) VALUES ('another application')"); con.commit(); con.close()
+			elif damage == 'truncated':
+				data = gdb.read_bytes(); gdb.write_bytes(data[:max(len(data) // 2, 4096)])
+			ctx.count(f'genome_file_damage:{damage}')
 		# the genome file in either SQLite journal mode: write-ahead logging is a persistent property of the file (header bytes 18/19)
 		self.journal = journal or rng.choice(['delete', 'delete', 'wal'])
-		if self.journal == 'wal':
+		if self.journal == 'wal' and damage in (None, 'index-dropped'):
 			import sqlite3
 			gdb = next(p for p in self.db.iterdir() if p.suffix in ('.gdb', '.db'))
 			con = sqlite3.connect(str(gdb))
@@ -169,7 +191,7 @@ class Hist:
 		r1 = self.cli(['-d', self.db, 'query', '-o', o, '--no-progress'] + [str(f) for f in self.qfiles[:2]])
 		r2 = self.cli(['-d', self.db, 'query', '-f', 'json', '-o', self.db / 'results.json', '--no-progress', str(self.qfiles[0])])
 		r3 = self.cli(['-d', self.db, 'query', '-o', o, '--no-progress', str(self.qfiles[0])])
-		if r3[0] != 0:
+		if r3[0] != 0 and not self.damage:
 			self.ctx.violation('database-unusable-after-read-side-use', f'query failed (exit {r3[0]}) after results were written into the database directory: {r3[2][-200:]} {r3[3]}', dict(step='output_inside_db_dir'))
 		for f in ('results.csv', 'results.json'):
 			try:
@@ -434,12 +456,13 @@ def run_hist(sh, ctx):
 	mon = SqlMonitor(ctx)
 	try:
 		for h in range(sh['nhist']):
-			H = Hist(ctx, rng, f'h{h}', testdb=sh.get('testdb', False), journal='wal' if h % 3 == 1 else 'delete')
+			H = Hist(ctx, rng, f'h{h}', testdb=sh.get('testdb', False), journal='wal' if h % 3 == 1 else 'delete',
+			         damage=['table-dropped', 'zero-length', 'foreign-sqlite', 'index-dropped', 'truncated'][h % 5] if sh.get('damaged') else None)
 			mon.dbpath = str(H.db)
 			watch = Watch(ctx, H.db)
 			hist = []
 			L = rng.randint(5, sh['maxlen'])
-			names = [n for n, wt in STEP_WEIGHTS for _ in range(wt)]
+			names = [n for n, wt in STEP_WEIGHTS for _ in range(wt) if not (sh.get('damaged') and n in ('explicit_writable_maker', 'orm', 'default_session_direct', 'cli_session', 'concurrent'))]   # an incomplete file: read-side commands and loads only (what an explicitly writable session may do to it is not the property's business)
 			for step in range(L):
 				name = rng.choice(names)
 				if name == 'concurrent' and (ctx.tier == 'quick' and step % 7):
@@ -540,7 +563,7 @@ def run_shard(sh, ctx):
 def finalize(merged, tier, seed, inconclusive):
 	c = merged['counters']
 	need = ['histories', 'step:query_files', 'step:query_sigs', 'step:dist_usedb', 'step:info', 'step:fail', 'step:library', 'step:orm', 'step:cli_session', 'step:explicit_writable_maker', 'step:default_session_direct', 'step:taxonomy_reads', 'failing_commands', 'commit_refused', 'orm_edit_steps',
-	        'sql:SELECT', 'straced_commands', 'syscall:open:O_RDONLY', 'genome_file_journal_mode:wal', 'genome_file_journal_mode:delete']
+	        'sql:SELECT', 'straced_commands', 'syscall:open:O_RDONLY', 'genome_file_journal_mode:wal', 'genome_file_journal_mode:delete', 'genome_file_damage:table-dropped', 'genome_file_damage:zero-length', 'genome_file_damage:foreign-sqlite']
 	for n in need:
 		if c.get(n, 0) == 0:
 			inconclusive.append(f'class never observed: {n}')
